@@ -33,7 +33,9 @@ import (
 // the file name).
 func sessionTextKey(s *Session, obsKey string) string {
 	var si, di int
-	sk := func(i int) string { return schemaKeyText(s.Schemas[i].Name, s.Schemas[i].Text, cutsOf(s, i), s.SplitSameName) }
+	sk := func(i int) string {
+		return schemaKeyText(s.Schemas[i].Name, s.Schemas[i].Text, cutsOf(s, i), s.SplitSameName)
+	}
 	switch {
 	case strings.HasPrefix(obsKey, "L|"):
 		fmt.Sscanf(obsKey, "L|%d", &si)
@@ -521,4 +523,35 @@ func c10CanonMinMain(args []string) {
 	n.Note = fmt.Sprintf("found under perturbed map orders, but reproduces with every map order canonical: the result depends on what the process did before; reduced in %d fresh-process candidate executions", tries)
 	writeJSON(*out, n)
 	fmt.Printf("escalated witness: class=%s sessions=%d candidates=%d\n", class, len(sessions), tries)
+}
+
+// c10KeyMain prints the isolated-oracle key (texts) of one observation of a
+// generated session: --seed, --source, --obs (L|i, V|i|j or Q|i|j).
+func c10KeyMain(args []string) {
+	fs := flag.NewFlagSet("c10-key", flag.ExitOnError)
+	seed := fs.Uint64("seed", 0, "session seed")
+	source := fs.String("source", "gen", "session source")
+	obs := fs.String("obs", "", "observation key")
+	fs.Parse(args)
+	s := genSession(*seed, *source)
+	var si, di int
+	k := isoKey{Kind: "V", Session: *seed, Source: *source, ObsKey: *obs}
+	if strings.HasPrefix(*obs, "L|") {
+		fmt.Sscanf(*obs, "L|%d", &si)
+		k.Kind = "L"
+	} else {
+		fmt.Sscanf((*obs)[1:], "|%d|%d", &si, &di)
+		if di < len(s.Docs) {
+			k.Doc = s.Docs[di]
+		}
+		if strings.HasPrefix(*obs, "V|") {
+			k.DocName = docName(s, di)
+		}
+	}
+	if si >= len(s.Schemas) {
+		fatal(2, "c10-key: no such schema in this session")
+	}
+	k.SchemaName, k.Schema = s.Schemas[si].Name, s.Schemas[si].Text
+	k.Cuts, k.SameName = cutsOf(s, si), s.SplitSameName
+	writeJSON("-", k)
 }
